@@ -18,10 +18,21 @@ def detect_format_and_yield_buffer(buffer, strict=True):
             f"Unknown detect input format: {binascii.hexlify(buffer).decode()}"
         ) from e
 
-    if look_ahead == b"\x0a\x0d":
+    magic = look_ahead
+    if look_ahead != b"\x0a\x0d":
+        # hex text may start with (or have its first pair split by) whitespace: judge by the first two other bytes
+        try:
+            while len(magic.translate(None, b" \t\n\r\x0b\x0c")) < 2:
+                look_ahead += bytes((next(buffer_iter),))
+                magic = look_ahead
+        except StopIteration:
+            pass
+        magic = magic.translate(None, b" \t\n\r\x0b\x0c")[:2]
+
+    if look_ahead[:2] == b"\x0a\x0d":
         yield "pcapng"
     else:
-        if re.match(b"[0-9a-fA-F]{2}", look_ahead):
+        if re.match(b"[0-9a-fA-F]{2}", magic):
             # look ahead is valid hex, so it's MAYBE hex
             if not strict:
                 yield "hex"
